@@ -205,7 +205,7 @@ func cmdCheck(args []string) {
 		}
 	}
 	retried := len(again)
-	if retried > 0 && retried <= 64 {
+	if retried > 0 && retried <= 16 {
 		for _, o := range again {
 			o.FirstTry = o.Output
 			o.Result, o.Solver, o.Output = "", "", ""
